@@ -486,6 +486,16 @@ def run(ctx: Context) -> None:
                    and flow.reaches(n.operand, lambda m: m is valid[0])]
             nn = flow.reaches(cond, lambda n: isinstance(n, ast.Compare) and isinstance(n.ops[0], (ast.NotEq, ast.IsNot)) and is_none(n.comparators[0]))
             ok_idx = not subs and bool(inv) and nn
+            if not ok_idx and not subs:
+                # the same condition with the negation outside: ~(is_missing(p) | is_valid(p)) and the like
+                from .common import array_conjuncts
+                cj = array_conjuncts(flow, cond)
+                not_valid = any(neg and x is valid[0] for x, neg in cj)
+                has_geom = any((neg and isinstance(x, ast.Call) and callee(ctx, pg, x) == 'shapely.is_missing' and len(x.args) == 1 and flow.resolve(x.args[0]) is mk[0])
+                               or (not neg and isinstance(x, ast.Compare) and len(x.ops) == 1 and isinstance(x.ops[0], ast.NotEq) and is_none(x.comparators[0]) and flow.resolve(x.left) is mk[0])
+                               or (neg and isinstance(x, ast.Compare) and len(x.ops) == 1 and isinstance(x.ops[0], ast.Eq) and is_none(x.comparators[0]) and flow.resolve(x.left) is mk[0])
+                               for x, neg in cj)
+                ok_idx = not_valid and has_geom
             detail = f"condition {norm_text(flow.resolve(cond))}"
         ctx.check('R06.6', ok_idx, "the positions replaced are flatnonzero(<not None> & ~is_valid(<full array>))", pg, stores[0] if stores else pg.node,
                   construct=f"invalid positions: {detail or norm_text(idx_expr) if idx_expr is not None else 'absent'}")
